@@ -26,6 +26,8 @@ thread_local! {
     static LAST_PANIC: RefCell<Option<(String, String)>> = const { RefCell::new(None) };
 }
 /// Panics of *all* threads (the language-server analysis threads included).
+static FN_CACHE: std::sync::Mutex<std::collections::BTreeMap<String, String>> =
+    std::sync::Mutex::new(std::collections::BTreeMap::new());
 pub static PANIC_LOG: std::sync::Mutex<Vec<(String, String)>> = std::sync::Mutex::new(Vec::new());
 
 pub fn install_hook() {
@@ -41,6 +43,45 @@ pub fn install_hook() {
             .location()
             .map(|l| format!("{}:{}:{}", l.file(), l.line(), l.column()))
             .unwrap_or_default();
+        // innermost lelwel (or dependency) function on the stack: a signature that survives line shifts.
+        // Resolved once per panic location (symbolisation is slow).
+        let func = {
+            let mut cache = FN_CACHE.lock().unwrap_or_else(|e| e.into_inner());
+            if let Some(f) = cache.get(&loc) {
+                f.clone()
+            } else {
+                let bt = std::backtrace::Backtrace::force_capture().to_string();
+                let mut found = String::new();
+                let mut past_panic = false;
+                for line in bt.lines() {
+                    let t = line.trim_start();
+                    let Some((idx, sym)) = t.split_once(": ") else { continue };
+                    if !idx.chars().all(|c| c.is_ascii_digit()) {
+                        continue;
+                    }
+                    if sym.contains("rust_begin_unwind") || sym.contains("panic_fmt") || sym.contains("core::panicking")
+                        || sym.contains("option::unwrap_failed") || sym.contains("result::unwrap_failed")
+                        || sym.contains("option::expect_failed") {
+                        past_panic = true;
+                        continue;
+                    }
+                    if past_panic && !sym.starts_with("std::") && !sym.starts_with("core::") && !sym.starts_with("vprobe::")
+                        && !sym.starts_with("<core::") && !sym.starts_with("<std::") {
+                        found = sym.to_string();
+                        break;
+                    }
+                }
+                // strip the hash suffix `::h0123...`
+                if let Some(pos) = found.rfind("::h") {
+                    if found.len() - pos == 19 {
+                        found.truncate(pos);
+                    }
+                }
+                cache.insert(loc.clone(), found.clone());
+                found
+            }
+        };
+        let loc = format!("{loc} in {func}");
         if let Ok(mut log) = PANIC_LOG.lock() {
             log.push((msg.clone(), loc.clone()));
         }
@@ -57,7 +98,9 @@ pub fn guarded<T>(f: impl FnOnce() -> T) -> Result<T, Value> {
             let (msg, loc) = LAST_PANIC
                 .with(|p| p.borrow_mut().take())
                 .unwrap_or_default();
-            Err(json!({"msg": msg, "loc": loc}))
+            let func = loc.split_once(" in ").map(|x| x.1.to_string()).unwrap_or_default();
+            let file = loc.split(':').next().unwrap_or("").to_string();
+            Err(json!({"msg": msg, "loc": loc, "fn": func, "file": file}))
         }
     }
 }
@@ -347,6 +390,10 @@ fn lex_seq(text: &str) -> Vec<(String, String)> {
             if matches!(t, lexer::Token::LineComment | lexer::Token::DocComment) {
                 // trailing newline / trailing blanks of a line comment are layout, not content
                 txt = txt.trim_end().to_string();
+            }
+            if matches!(t, lexer::Token::BlockComment) {
+                // CR before LF inside a block comment is layout, not content
+                txt = txt.replace("\r\n", "\n");
             }
             (format!("{t:?}"), txt)
         })
